@@ -2088,6 +2088,10 @@ def sequence_menu():
         ASSIGN('x', ('fcall', 'f', [('x', I(1)), ('y', R15)])),
         ('delete', 'n'),
         ('return', None),
+        # (appended: the sequences of three are drawn from the first eight)  a transient declared with a user data type by
+        # its first assignment, and a copy of it into x -- which is declared by the copy, or was declared before
+        ASSIGN('st', F('a', 'When')),
+        ASSIGN('x', V('st')),
     ]
 
 
@@ -2269,6 +2273,11 @@ def all_tasks(tier, seed=0):
                   control_flow_nesting=2 if tier == 'quick' else 3,      # blocks inside blocks below the body
                   expression_depth=3 if tier == 'quick' else 4,
                   chain_steps=2 if tier == 'quick' else 3, homes=HOMES,
+                  user_data_types=dict(types=dict(USER_TYPES), programs_in_the_statement_family=len(usertypes),
+                                       sources=[repr(x) for x in usertype_sources()],
+                                       declared_with_them='attributes A.When, A.Tag, A.Beat, B.When; the last two parameters of '
+                                                          'the function, bridge and operation homes; the return types of '
+                                                          '::stamp, EE::title, A::tick, A.mark'),
                   qualified_names=dict(enumerations=dict(ENUMS), constants=['%s::%s (%s)' % c[:3] for c in CONSTANTS],
                                        pairs='every ordered pair of the %d qualified names read in one body; pairs sharing their '
                                              'unqualified name also inside one expression, across nested blocks, where clause / body, '
@@ -2316,6 +2325,7 @@ class Walk(object):
         self.reported = set()
         self.checks = 0
         self.namesakes = 0       # data types compared by identity that have a namesake in another component
+        self.usertyped = 0       # values and variables whose expected type is a user data type
         self.seen_smt, self.seen_val, self.seen_var, self.seen_blk = set(), set(), set(), set()
         self.loose = []          # expected nodes whose value instance nothing refers to (statement invocations, operation targets)
 
@@ -2638,6 +2648,7 @@ class Walk(object):
                    (var.name, 'no block' if blk is None else 'another block', var.block['depth']))
         want = var.t if var.claimed else getattr(var, 'observed', None)
         if want is not None:
+            self.usertyped += base_t(want) != want
             self.check(dt is not None and dt.Name == want, 'type:variable-declaration',
                        'variable %s is typed %s; the value first assigned to it is %s' % (var.name, dt.Name if dt else None, want),
                        want, dt.Name if dt else None)
@@ -2681,6 +2692,7 @@ class Walk(object):
             if claim == 'variable' and var is not None and not var.claimed:
                 want = getattr(var, 'observed', None)
             if want is not None:
+                self.usertyped += base_t(want) != want
                 self.check(e['observed_t'] == want, 'type:%s' % claim,
                            'expression %r is related (R820) to the data type %s; under OAL typing it is %s (%s)' %
                            (self.src(e), e['observed_t'], want, claim), want, e['observed_t'])
@@ -2821,6 +2833,7 @@ def c06_child(sub, host, task):
     w.run()
     sub.count('checks', w.checks)
     sub.count('namesake_checks', w.namesakes)
+    sub.count('usertype_checks', w.usertyped)
     if task.get('layout') == 'remarks':
         sub.count('remark_characters', sum(text.count(c) for c in ODD_CHARACTERS + '\r'))
     sub.count('values', len(w.seen_val))
@@ -2898,7 +2911,7 @@ def _dump_child(sub, host, text, home):
 
 
 def canonical_prebuild_dump(text, home='function'):
-    '''Translate *text* as the body of the function home `f(x, y)` of a fresh host with prebuild_action and
+    '''Translate *text* as the body of the function home `main(x, y, w, l)` of a fresh host with prebuild_action and
     return an order-stable description of what was created: one entry per ACT_* / V_* / E_* (and S_DIM)
     instance -- (class, creation index within the class, non-id attribute values except the statement's
     source-text label, links to the instances its referential attributes designate as (association, phrase,
